@@ -137,13 +137,25 @@ def check(model, rep):
                 return c[4]
         return None
 
+    def region_eq(block, r0, r1, c0, c1, expected):
+        """the region is `expected` - stored as one sub-block, or spelled out element by element"""
+        if region(block, r0, r1, c0, c1) == expected:
+            return True
+        for r in range(r0, r1):
+            for c in range(c0, c1):
+                cell = tv.read_cell(model, block, r, c)
+                want = tv.read_cell(model, expected, r - r0, c - c0)
+                if cell is None or not (cell == ('idx', expected, (num(r - r0), num(c - c0))) or (want is not None and cell == want)):
+                    return False
+        return True
+
     def zeros_region(block, r0, r1, c0, c1):
         return all(is_num(tv.read_cell(model, block, r, c) or ('x',), 0) for r in range(r0, r1) for c in range(c0, c1))
     Ad = nf('Adjoint')
     if Ad[0] == 'block' and Ad[1] == (6, 6):
-        rep.ob('R01.3', fi('Adjoint'), 'block (0:3,0:3) == R', region(Ad, 0, 3, 0, 3) == R_, 'upper-left block is %s' % show(region(Ad, 0, 3, 0, 3) or ('?',)))
-        rep.ob('R01.3', fi('Adjoint'), 'block (3:6,3:6) == R', region(Ad, 3, 6, 3, 6) == R_, 'lower-right block is %s' % show(region(Ad, 3, 6, 3, 6) or ('?',)))
-        rep.ob('R01.3', fi('Adjoint'), 'block (3:6,0:3) == [p] R', region(Ad, 3, 6, 0, 3) == ('dot', ('call', 'VecToso3', (p_,), ()), R_),
+        rep.ob('R01.3', fi('Adjoint'), 'block (0:3,0:3) == R', region_eq(Ad, 0, 3, 0, 3, R_), 'upper-left block is %s' % show(region(Ad, 0, 3, 0, 3) or ('?',)))
+        rep.ob('R01.3', fi('Adjoint'), 'block (3:6,3:6) == R', region_eq(Ad, 3, 6, 3, 6, R_), 'lower-right block is %s' % show(region(Ad, 3, 6, 3, 6) or ('?',)))
+        rep.ob('R01.3', fi('Adjoint'), 'block (3:6,0:3) == [p] R', region_eq(Ad, 3, 6, 0, 3, ('dot', ('call', 'VecToso3', (p_,), ()), R_)),
                'lower-left block is %s' % show(region(Ad, 3, 6, 0, 3) or ('?',)))
         rep.ob('R01.3', fi('Adjoint'), 'block (0:3,3:6) == 0', zeros_region(Ad, 0, 3, 3, 6), 'upper-right block is not zero')
     else:
@@ -152,9 +164,9 @@ def check(model, rep):
     w_hat = ('call', 'VecToso3', (vec_block(0, (0, 1, 2)),), ())
     v_hat = ('call', 'VecToso3', (vec_block(0, (3, 4, 5)),), ())
     if adn[0] == 'block' and adn[1] == (6, 6):
-        rep.ob('R01.3', fi('ad'), 'block (0:3,0:3) == [w]', region(adn, 0, 3, 0, 3) == w_hat, 'upper-left block is %s' % show(region(adn, 0, 3, 0, 3) or ('?',)))
-        rep.ob('R01.3', fi('ad'), 'block (3:6,3:6) == [w]', region(adn, 3, 6, 3, 6) == w_hat, 'lower-right block is %s' % show(region(adn, 3, 6, 3, 6) or ('?',)))
-        rep.ob('R01.3', fi('ad'), 'block (3:6,0:3) == [v]', region(adn, 3, 6, 0, 3) == v_hat, 'lower-left block is %s' % show(region(adn, 3, 6, 0, 3) or ('?',)))
+        rep.ob('R01.3', fi('ad'), 'block (0:3,0:3) == [w]', region_eq(adn, 0, 3, 0, 3, w_hat), 'upper-left block is %s' % show(region(adn, 0, 3, 0, 3) or ('?',)))
+        rep.ob('R01.3', fi('ad'), 'block (3:6,3:6) == [w]', region_eq(adn, 3, 6, 3, 6, w_hat), 'lower-right block is %s' % show(region(adn, 3, 6, 3, 6) or ('?',)))
+        rep.ob('R01.3', fi('ad'), 'block (3:6,0:3) == [v]', region_eq(adn, 3, 6, 0, 3, v_hat), 'lower-left block is %s' % show(region(adn, 3, 6, 0, 3) or ('?',)))
         rep.ob('R01.3', fi('ad'), 'block (0:3,3:6) == 0', zeros_region(adn, 0, 3, 3, 6), 'upper-right block is not zero')
     else:
         rep.ob('R01.3', fi('ad'), '6x6 block form', False, 'ad does not normalise to a 6x6 block')
